@@ -478,6 +478,7 @@ func main() {
 			fatal("%v", err)
 		}
 	}
+	facts["anchors_missing"] = anchorsMissing
 	facts["_repo"] = pr.Repo
 	facts["_module"] = pr.Mod
 	b, err := json.MarshalIndent(facts, "", " ")
@@ -486,6 +487,9 @@ func main() {
 	}
 	if err := os.WriteFile(filepath.Join(*out, "facts.json"), append(b, '\n'), 0644); err != nil {
 		fatal("%v", err)
+	}
+	for _, a := range anchorsMissing {
+		fmt.Printf("extract: ANCHOR MISSING (facts omitted, the Tie theorems that need them will not build): %s\n", a)
 	}
 	if !*quiet {
 		fmt.Printf("extract: %d packages, %d functions of %s -> %d Lean files in %s (%.2fs)\n",
